@@ -9,8 +9,11 @@ Binding (trace validation): for every (value, type, form) a tiny program is comp
 and, if accepted, run on the reference interpreter; the observed verdict, the returned word and
 the value reported through result() are part of the case record and the spec's Observe action
 reports each disagreement.  Forms: literal / negated literal in annotated assignment, return,
-argument, unannotated assignment, tuple and array constants, `-(N)`; comptime variable,
-comptime expression, comptime tuple, comptime list, returned comptime value; at int and nat.
+argument, unannotated assignment, `-(N)`; comptime variable, comptime expression, returned
+comptime value; and as an element of a 3-element tuple, array(...), nested tuple, comptime tuple,
+comptime list and comptime nested tuple constant - boundary values at EVERY element position
+(first, middle, last; the spec checks every element, one Check step each), other values at a
+rotating position; at int and nat.
 The limb arithmetic itself is model-checked in C04 (spec/BitVecLaws.tla); the thorough tier
 repeats that run here.
 """
@@ -37,8 +40,11 @@ def records(cases, obs):
     recs = []
     for c, o in zip(cases, obs):
         assert c["id"] == o["id"]
-        z = nv.enc_wide(c["v"])
-        recs.append({"ty": c["ty"], "minus": c["minus"], "neg": 1 if z["neg"] else 0, "mag": z["mag"], "st": o["st"],
+        els = []
+        for e, minus in c["els"]:
+            z = nv.enc_wide(e)
+            els.append({"minus": minus, "neg": 1 if z["neg"] else 0, "mag": z["mag"]})
+        recs.append({"ty": c["ty"], "els": els, "pos": c["pos"] + 1, "st": o["st"],
                      "ret": nv.limbs(o["ret"]), "rk": o["rk"], "rw": nv.limbs(o["rv"])})
     return recs
 
@@ -60,7 +66,7 @@ def validate(ctx, recs, name="lit_cases.json"):
 
 def py_verdict(c):
     lo, hi = (nv.MINI, nv.MAXI) if c["ty"] == "int" else (0, nv.MAXU)
-    return lo <= c["v"] <= hi
+    return all(lo <= e <= hi for e, _ in c["els"])
 
 
 def run(ctx):
@@ -110,6 +116,7 @@ def run(ctx):
         "rule": "one compiled program per (value, type, form); non-trivial = |value| >= 2^62 (within a factor 4 of a range bound, or beyond)",
         "values": len({c["v"] for c in cases}), "spec_accept": nacc, "spec_reject": nrej,
         "forms": sorted({c["form"] for c in cases}), "mismatches": len(bad),
+        "out_of_range_at_later_element": sum(1 for c in cases if c["pos"] > 0 and not py_verdict(c)),
         "samples": [{"v": c["v"], "ty": c["ty"], "form": c["form"], "st": o["st"]} for c, o in list(zip(cases, obs))[:: max(1, len(cases) // 5)][:5]],
         "exhaustive": False,
     })
@@ -125,7 +132,7 @@ def replay(ctx, data):
 
 
 def selftest(ctx):
-    cases = [c for c in nl.cases("quick", ctx.seed) if c["form"] in ("assign", "ct_var", "ret")]
+    cases = [c for c in nl.cases("quick", ctx.seed) if c["form"] in ("assign", "ct_var", "ret", "ct_list@1", "tuple@2")]
     obs = execute(cases)
     recs = records(cases, obs)
     base, _, _ = validate(ctx, recs, "self0.json")
